@@ -330,7 +330,17 @@ func scenC17(x *Exec) {
 		bound := time.Duration(len(p.Script)+5)*(35*time.Second+time.Duration(p.TimeoutMs)*time.Millisecond) + 2*time.Minute
 		deadline := time.Now().Add(bound)
 		for !p.Early && time.Now().Before(deadline) {
-			if len(ackedSet()) >= accepted {
+			// (by membership, not by count: with the second dispatcher around, a point of the main one may be marked as dropped
+			// although it was accepted, and would then inflate the count of acknowledged points)
+			as := ackedSet()
+			all := true
+			for _, q := range pts {
+				if !q.drop && !as[fmt.Sprintf("%s@%d", q.series, q.ts)] {
+					all = false
+					break
+				}
+			}
+			if all {
 				break
 			}
 			simrt.Sleep(500 * time.Millisecond)
